@@ -1331,7 +1331,7 @@ class DirectIdxStackTransformation(BaseStackTransformation):
             stack_size = simplify(stack_size)
 
             # add offset to int_var
-            lower = Sum((int_var,) + offset.children if isinstance(offset, Sum) else (offset,))
+            lower = Sum((int_var,) + (offset.children if isinstance(offset, Sum) else (offset,)))
 
             if stack_size == IntLiteral(1):
                 # if a single element is accessed, we only need a number
@@ -1340,7 +1340,7 @@ class DirectIdxStackTransformation(BaseStackTransformation):
             else:
                 # else we'll  have to construct a range index
                 offset = simplify(Sum((offset, stack_size, Product((-1, IntLiteral(1))))))
-                upper = Sum((int_var,) + offset.children if isinstance(offset, Sum) else (offset,))
+                upper = Sum((int_var,) + (offset.children if isinstance(offset, Sum) else (offset,)))
                 stack_dimensions[0] = RangeIndex((lower, upper))
 
             # finally add to the mapping
